@@ -1,4 +1,5 @@
 """C03 - frozen inputs are never evicted; clean-up bookkeeping stays consistent."""
+import os
 import numpy as np
 
 from lib import common, harness, history as H, monitor, spacetimes as S
@@ -152,6 +153,16 @@ def run_case(spec):
                 # derived tensors supplied by the user as inputs are frozen too
                 for k in ('st_Riemann_down4', 's_Riemann_down3', 'gdown4', 's_Gamma_udd3', 's_RicciS'):
                     inputs[k] = np.array(ex[k], copy=True)
+            mm_dir = None
+            if spec['hseed'] % 5 == 2:
+                # one input comes memory-mapped from disk (np.load(..., mmap_mode='r+')):
+                # an ndarray subclass whose base is not an ndarray
+                import tempfile
+                os.makedirs(common.WORK, exist_ok=True)
+                mm_dir = tempfile.mkdtemp(dir=common.WORK, prefix="c03mm_")
+                k0 = sorted(inputs)[0]
+                np.save(os.path.join(mm_dir, 'a.npy'), inputs[k0])
+                inputs[k0] = np.load(os.path.join(mm_dir, 'a.npy'), mmap_mode='r+')
             with common.Quiet():
                 rel = A.AurelCore(fd, **kw)
                 if spec['route'] == 'load_data' and spec['hseed'] % 4 == 3 and len(inputs) > 1:
@@ -257,6 +268,9 @@ def run_case(spec):
                 if r.var_importance.get(k, 1.0) == 0 and k not in r.data:
                     violations.append(("I1 frozen key evicted", {"key": k, "where": "end"}))
         res['observations'] += counters.get('cleanups', 0) + counters.get('hits', 0) + counters.get('misses', 0)
+    if 'mm_dir' in dir() and mm_dir:
+        import shutil
+        shutil.rmtree(mm_dir, ignore_errors=True)
     cmap = H.cleanup_line_map()
     paths = {}
     for (q, l), c in tr.lines.items():
